@@ -34,6 +34,7 @@ class Runner:
         self.n = int(opts.get('n', '2'))
         self.edges = int(opts['edges']) if 'edges' in opts else None
         self.prop = opts.get('prop', 'C20')
+        self.lean = opts.get('lean') == '1' or opts.get('set') == 'q'
         self.flavour = opts.get('flavour', 'plain')
         if 'set' in opts:   # called from checks/c17.py
             self.n, self.edges = (2, None) if opts['set'] == 'q' else (3, 2)
@@ -66,6 +67,8 @@ class Runner:
         for n in range(1, max(self.n, 3) + 1):
             only_two_deps = n > self.n     # beyond the tier's n only the two-dependency markings are generated (edge bound 1)
             for kinds, reads in D.graphs(n, (self.edges if not only_two_deps else 1) if n == 3 else None):
+                if self.lean and ('G' in kinds or any(i in reads[i] for i in range(n))):
+                    continue  # quick: guessed unknowns and self-reading states only in the dedicated sub-family / thorough
                 for place in D.placements(n):
                     L = D.Layout(kinds, reads, place)
                     twins = [(j, c) for (j, c) in L.needed_twins() if j != 't']
@@ -113,14 +116,15 @@ def families(opts):
 
     def describe(case):
         kinds, reads, place, m, d, drop, rn = case
-        return {'rename': rn, 'kinds': ''.join(kinds), 'reads': [sorted(map(str, x)) for x in reads], 'place': list(place), 'marked': [list(x) for x in m], 'dependency': list(d) if d else None, 'dropped_equation_of': drop}
+        return {'layout': rn, 'kinds': ''.join(kinds), 'reads': [sorted(map(str, x)) for x in reads], 'place': list(place), 'marked': [list(x) for x in m], 'dependency': list(d) if d else None, 'dropped_equation_of': drop}
 
     def run_ext(ci, ctx):
         case = r.cases()[ci]
         kinds, reads, place, m, d, drop, rn = case
         n = len(kinds)
         desc = describe(case)
-        L = D.Layout(kinds, reads, place, drop_eq=drop, rename=rn)
+        lk = rn if isinstance(rn, dict) else {'rename': rn}
+        L = D.Layout(kinds, reads, place, drop_eq=drop, **lk)
         doc = L.render()
 
         def rep(sig, det=None):
@@ -260,6 +264,30 @@ def families(opts):
         dep_classes = [d[1]] if d and d[0] == 'var' else [d[1], d[2]] if d and d[0] == 'vars' else []
 
         def nla(obj, u, nn, arrays):
+            if 'G' in kinds:
+                # reading-agnostic: really solve the (affine) system the generated objective function defines
+                f0 = obj([0.0] * nn)
+                J = []
+                for k in range(nn):
+                    e = [0.0] * nn
+                    e[k] = 1.0
+                    fk = obj(e)
+                    J.append([fk[r_] - f0[r_] for r_ in range(nn)])
+                A = [[J[c_][r_] for c_ in range(nn)] + [-f0[r_]] for r_ in range(nn)]   # A x = -f0
+                try:
+                    for col in range(nn):
+                        piv = max(range(col, nn), key=lambda r_: abs(A[r_][col]))
+                        if abs(A[piv][col]) < 1e-12:
+                            raise ZeroDivisionError
+                        A[col], A[piv] = A[piv], A[col]
+                        for r_ in range(nn):
+                            if r_ != col:
+                                m_ = A[r_][col] / A[col][col]
+                                A[r_] = [a - m_ * b for a, b in zip(A[r_], A[col])]
+                    return [A[r_][nn] / A[r_][r_] for r_ in range(nn)]
+                except ZeroDivisionError:
+                    rep('nla-system-of-generated-code-is-singular', {'n': nn})
+                    return list(u)
             sent = [98765.4321 + 7 * k for k in range(nn)]
             obj(sent)
             vs = list(arrays['variables'])
@@ -270,7 +298,7 @@ def families(opts):
                 want.append(ref[cls] if cls is not None and not isinstance(ref.get(cls), tuple) else float('nan'))
             f = obj(want)
             for fi in f:
-                if not abs(fi) <= 1e-9:
+                if not abs(fi) <= 1e-9 and 'G' not in kinds:
                     rep('values:nla-objective-nonzero-at-solution', {'f': repr(fi)})
             return want
         for prof in ('C', 'Python'):
@@ -316,6 +344,28 @@ def families(opts):
                         if snap is None or not X.close(snap, want):
                             rep('callback-invoked-before-declared-dependency-is-computed:%s:%s-depends-on-%s%s' % (prof, kinds[ecls], kinds[dc], ':two-dependencies' if len(dep_classes) > 1 else ''),
                                 {'dependency': dc, 'dependency_slot': repr(snap), 'want': repr(want)})
+            if 'G' in kinds:
+                # reading-agnostic oracle: whatever the analyser made of the guessed unknown, a model it calls valid must satisfy
+                # every one of its equations with the values the generated code produces
+                val = {}
+                for i in range(n):
+                    if i in idx:
+                        a, ix = idx[i]
+                        val[i] = out['states'][ix] if kinds[i] == 'S' else out[a][ix]
+                val['t'] = D.VOI
+                for i in range(n):
+                    if kinds[i] == 'K' or i == drop or i not in val or any(j not in val for j in reads[i]):
+                        continue
+                    rsum = sum(val[j] for j in reads[i])
+                    if kinds[i] == 'E':
+                        res_ = val[i] - (D.CONST[i] + rsum)
+                    elif kinds[i] == 'S':
+                        res_ = out['rates'][idx[i][1]] - (D.CONST[i] + rsum)
+                    else:
+                        res_ = rsum + D.CONST[i] - val[i]
+                    if not abs(res_) <= 1e-9 * max(1.0, abs(val[i])):
+                        rep('equation-not-satisfied-by-generated-values:%s:equation-of-%s' % (prof, kinds[i]), {'var': i, 'residual': repr(res_), 'values': {str(k): repr(v) for k, v in val.items()}})
+                continue
             for i in range(n):
                 if i in want_ext or i not in idx:
                     continue
@@ -329,7 +379,7 @@ def families(opts):
     def show(ci):
         case = r.cases()[ci]
         dsc = describe(case)
-        dsc['document'] = D.Layout(case[0], case[1], case[2], drop_eq=case[5], rename=case[6]).render()
+        dsc['document'] = D.Layout(case[0], case[1], case[2], drop_eq=case[5], **(case[6] if isinstance(case[6], dict) else {'rename': case[6]})).render()
         return dsc
 
     import atexit
